@@ -87,3 +87,13 @@ chk("C07",
     "Trusted: CPython reference counting is observed, not encoded; weak references are taken by harness-side wrappers of "
     "Tensor.__init__/Operation.__init__. Strength: exhaustive over the listed programs, not over all programs.",
     "symbolic execution + structural term identity and SMT value equality across iterations; concrete heap observation per path", "DESIGN §3 C07")
+chk("C13",
+    "Fault injection by enumeration: C04-grammar programs (<=2 statements, thorough + strided 3) with consumers; one failing statement "
+    "of each of 16 kinds (shape-incompatible op, bad axis / index / advanced index / reshape / transpose / einsum / matmul / concatenate, "
+    "failing item- and augmented assignment on a base or a view, wrong out=, wrong where= shape, bad .shape, natively read-only target) "
+    "inserted at every position. Differential within one run on identical symbols: with vs. without the failing statement; right after "
+    "the failure and at the end every live tensor's data terms, constant flag, base, creator/consumer counts, view children, memory-"
+    "sharing pattern, array writeability and the lock-table size must be identical; z3 decides that final values and all gradients agree.",
+    "Trusted: the same-run differential (both executions share the symbols); failures inside backward() are outside. Quick keeps every "
+    "third (program, position, kind) triple.",
+    "fault-point enumeration + symbolic execution + differential SMT equality", "DESIGN §3 C13")
